@@ -330,10 +330,17 @@ def decodeLeaf (g : String) (f : Fields) : Except LoadErr (Option Leaf) :=
                       fieldList := getStrs f "FieldList" }))
   else .ok none
 
-def decodeLeafShape (g : String) : Shape Fields → Except LoadErr (Option Leaf)
-  | .obj f => decodeLeaf g f
-  | .null => .ok none                         -- nil pointer
-  | .scalar => .error .decode                 -- "cannot unmarshal !!int into …"
+/-- the sampler members of `V2SamplerChoice` / `RulesBasedDownstreamSampler` other than the rules-based one -/
+def leafNames : List String :=
+  ["DeterministicSampler", "DynamicSampler", "EMADynamicSampler", "EMAThroughputSampler",
+   "WindowedThroughputSampler", "TotalThroughputSampler"]
+
+def decodeLeafShape (g : String) (v : Shape Fields) : Except LoadErr (Option Leaf) :=
+  if !leafNames.contains g then .ok none      -- not a member of the struct: the key is ignored whatever its value
+  else match v with
+    | .obj f => decodeLeaf g f
+    | .null => .ok none                       -- nil pointer
+    | .scalar => .error .decode               -- "cannot unmarshal !!int into …"
 
 /-- `Except` version of `List.map` (first error wins, in list order) -/
 def mapE {α β ε : Type} (f : α → Except ε β) : List α → Except ε (List β)
